@@ -313,6 +313,9 @@ def obs_c07(o):
     for _ in range(12 if o.tier == 'quick' else 40):
         k = o.r.randint(2, 5)
         arglists.append([o.r.randrange(n) for _ in range(k)])
+    for k in (5, 6, 7, 9, 10, 13):                  # longer operand lists (a fold that pairs operands up must not lose one)
+        arglists.append([o.r.randrange(n) for _ in range(k)])
+        arglists.append(([0] * (k - 1) + [n - 1]) if k % 2 else ([n - 1] * (k - 1) + [0]))
     for args in arglists:
         for is_join in (True, False):
             cs = [o.concepts[i] for i in args]
